@@ -170,6 +170,33 @@ theorem C14_atomic_inv (env : Env) (op : Op) (db : Db) (fuel : Fuel) (hi : SqlIn
     rw [this]; exact hs
   · exact (specStep_inv env op hs).perm h2.symm
 
+/-! ### a new name server; two clients -/
+
+/-- **C14_fresh_empty.**  Every name server starts as the empty map, on both back-ends (and nothing in the model
+    is shared between two instances: each history is run from its own initial state).  The harness holds the
+    real code to this with default-constructed `NameServer()` instances: a second instance created after a
+    history is empty, and using it leaves the first untouched. -/
+theorem C14_fresh_empty (env : Env) :
+    (nsStep memStore env .count []).1 = .num 0 ∧
+    (nsStep memStore env (.list none none true) []).1 = .listing [] ∧
+    (nsStep sqlStore env .count sqlInit).1 = .num 0 ∧
+    (nsStep sqlStore env (.list none none true) sqlInit).1 = .listing [] ∧
+    sqlInit.db.abs = [] := by
+  refine ⟨rfl, rfl, rfl, rfl, rfl⟩
+
+/-- **C14_overlap_serial.**  Two calls `a`, `b` of two clients that overlap in time take effect in one of the
+    two orders — that is C15's theorem (every storage access of an operation happens while holding the name
+    server's lock).  What C14 adds: in *either* order, on any back-end meeting the storage contract, the two
+    answers and the resulting map are the plain map's for that order.  The overlap suite of the harness
+    therefore accepts exactly the two outcomes computed on the plain map. -/
+theorem C14_overlap_serial {σ : Type} {abs : σ → List Entry} {inv : σ → Prop} {S : Store σ}
+    (ok : StoreOK abs inv False S) (env : Env) (a b : Op) (s : σ) (hi : inv s) (hs : SpecInv (abs s)) :
+    (ResListEquiv (runHist (nsStep S env) [a, b] s).1 (runHist (specStep env) [a, b] (abs s)).1 ∧
+      (abs (runHist (nsStep S env) [a, b] s).2).Perm (runHist (specStep env) [a, b] (abs s)).2) ∧
+    (ResListEquiv (runHist (nsStep S env) [b, a] s).1 (runHist (specStep env) [b, a] (abs s)).1 ∧
+      (abs (runHist (nsStep S env) [b, a] s).2).Perm (runHist (specStep env) [b, a] (abs s)).2) :=
+  ⟨hist_refines ok env [a, b] s (abs s) hi hs (.refl _), hist_refines ok env [b, a] s (abs s) hi hs (.refl _)⟩
+
 /-! ### removal: counts and the name server's own entry -/
 
 theorem length_filter_add (l : List Entry) (p : Entry → Bool) :
